@@ -214,7 +214,21 @@ def read_table(path):
 def run_impl(case):
     import pandas as pd
     from outrank.task_summary import outrank_task_result_summary
-    d = tempfile.mkdtemp(prefix='c18_')
+    # every second case re-uses ONE output folder of this process (as repeated runs into the default `--output_folder` do): a summary
+    # must be computed from the pairwise_ranks.tsv that is in the folder NOW
+    global _SHARED, _NCALL
+    _NCALL += 1
+    shared = (_NCALL // 3) % 2 == 1              # runs of three consecutive summaries into the same folder
+    if shared:
+        if _SHARED is None:
+            _SHARED = tempfile.mkdtemp(prefix='c18_shared_')
+            import atexit
+            atexit.register(shutil.rmtree, _SHARED, True)
+        d = _SHARED
+        for f in os.listdir(d):
+            os.unlink(os.path.join(d, f))
+    else:
+        d = tempfile.mkdtemp(prefix='c18_')
     try:
         pd.DataFrame(case['rows'], columns=['FeatureA', 'FeatureB', 'Score']).to_csv(
             os.path.join(d, 'pairwise_ranks.tsv'), sep='\t', index=False)
@@ -230,7 +244,11 @@ def run_impl(case):
         return {'outcome': 'ok', 'singles': read_table(os.path.join(d, 'feature_singles.tsv')),
                 'agg': read_table(os.path.join(d, 'feature_singles_aggregated.tsv'))}
     finally:
-        shutil.rmtree(d, ignore_errors=True)
+        if not shared:
+            shutil.rmtree(d, ignore_errors=True)
+
+
+_SHARED, _NCALL = None, 0
 
 
 # ---------------------------------------------------------------------------------------------
